@@ -17,7 +17,7 @@ def strip_generics(p):
         c = p[i]
         if c == '<':
             e = match_close(p, i)
-            if p.startswith('<impl ', i):
+            if p.startswith('<impl ', i) and p.startswith('::', e + 1):
                 out += re.sub(r'\s+', ' ', p[i:e + 1]); i = e + 1; continue
             if out.endswith('::'): out = out[:-2]
             i = e + 1; continue
@@ -86,7 +86,7 @@ def parse_callee(c):
         return ci
     segs = _segments(c)
     # trailing turbofish = fn generic args
-    if segs and segs[-1].startswith('<') and not segs[-1].startswith('<impl '):
+    if segs and segs[-1].startswith('<'):          # a trailing <..> group is always a turbofish, even `::<impl Trait>`
         ci.fnargs = split_top(segs[-1][1:-1]); segs = segs[:-1]
     ci.method = segs[-1]
     pre = segs[:-1]
@@ -162,6 +162,8 @@ def resolve(vm, callee, subst):
         for f in mir.by_name.get(ci.method, []):
             if f.name == f'{ci.trait}::{ci.method}' or f.name.endswith(f'::{ci.trait}::{ci.method}'):
                 return ('mir', f, bind_fn_generics(vm, f, {'Self': selfty}, ci.fnargs))
+        if selfty.startswith('dyn ') and ci.trait in mir.src.traits:
+            return ('dyn', ci)
         m = vm.models.lookup_trait(ci)
         if m is not None: return ('model', m[0], ci, m[1])
         raise Unmodelled(f'unmodelled callee: {c}   [shape {ci.shape}]')
